@@ -394,45 +394,91 @@ pub fn rand_tx(rng: &mut Rng, g: &OpGen, max_ops: usize, uniq: &mut u64, p_topo:
 pub fn fill_anchors(rng: &mut Rng, s: &mut State) {
     let (pv, pe, pf) = (s.partition(0), s.partition(1), s.partition(2));
     let n = s.n() as u32;
+    let live = |s: &State, d: u32| !s.unused[d as usize] && !s.is_free(d);
+    // one material, or two separated by a vertical line through the mesh (faces by centroid):
+    // the interface between them is an interior curve
+    let two = rng.chance(0.5);
+    let mut surface = vec![1u64; s.n()]; // per face id
+    if two {
+        let mut cx: Vec<(u32, f64)> = vec![];
+        for d in 1..n {
+            if live(s, d) && pf[d as usize] == d {
+                let w = s.face_walk(d, true).fwd;
+                let xs: Vec<f64> = w.iter().filter_map(|&x| s.vtx[pv[x as usize] as usize].map(|v| f64::from_bits(v[0]))).collect();
+                if !xs.is_empty() {
+                    cx.push((d, xs.iter().sum::<f64>() / xs.len() as f64));
+                }
+            }
+        }
+        if cx.len() >= 2 {
+            let mut sorted: Vec<f64> = cx.iter().map(|c| c.1).collect();
+            sorted.sort_by(|a, b| a.partial_cmp(b).unwrap());
+            let cut = sorted[sorted.len() / 2];
+            for (f, x) in cx {
+                surface[f as usize] = if x < cut { 1 } else { 2 };
+            }
+        }
+    }
+    let surf_of = |d: u32| surface[pf[d as usize] as usize];
     let mut boundary_vertex = vec![false; s.n()];
+    let mut interface_vertex = vec![false; s.n()];
     for d in 1..n {
-        if s.unused[d as usize] || s.is_free(d) {
+        if !live(s, d) {
             continue;
         }
-        if s.b(2, d) == 0 {
+        let nx = s.b(1, d);
+        let o = s.b(2, d);
+        if o == 0 {
             boundary_vertex[pv[d as usize] as usize] = true;
-            let nx = s.b(1, d);
             if nx != 0 {
                 boundary_vertex[pv[nx as usize] as usize] = true;
+            }
+        } else if surf_of(d) != surf_of(o) {
+            interface_vertex[pv[d as usize] as usize] = true;
+            if nx != 0 {
+                interface_vertex[pv[nx as usize] as usize] = true;
             }
         }
     }
     let p_node = [0.0, 0.15, 0.4][rng.below(3)];
     for d in 1..n {
-        if s.unused[d as usize] || s.is_free(d) {
+        if !live(s, d) {
             continue;
         }
         if mask_has(s.kinds, K_VA) && pv[d as usize] == d {
-            s.attrs[K_VA][d as usize] = Some(if boundary_vertex[d as usize] {
+            let (bd, itf) = (boundary_vertex[d as usize], interface_vertex[d as usize]);
+            s.attrs[K_VA][d as usize] = Some(if bd && itf {
+                u64::from(d) // where the interface meets the boundary: a node
+            } else if bd {
                 if rng.chance(p_node) { u64::from(d) } else { (1 << 32) | 1 }
+            } else if itf {
+                (1 << 32) | 7
             } else {
-                (2 << 32) | 1
+                (2 << 32) | surf_of(d)
             });
         }
         if mask_has(s.kinds, K_EA) && pe[d as usize] == d {
-            s.attrs[K_EA][d as usize] = Some(if s.b(2, d) == 0 { (1 << 32) | 1 } else { (2 << 32) | 1 });
+            let o = s.b(2, d);
+            s.attrs[K_EA][d as usize] = Some(if o == 0 {
+                (1 << 32) | 1
+            } else if surf_of(d) != surf_of(o) {
+                (1 << 32) | 7
+            } else {
+                (2 << 32) | surf_of(d)
+            });
         }
         if mask_has(s.kinds, K_FA) && pf[d as usize] == d {
-            s.attrs[K_FA][d as usize] = Some((2 << 32) | 1);
+            s.attrs[K_FA][d as usize] = Some((2 << 32) | surface[d as usize]);
         }
     }
 }
 
 pub fn rand_kinds_kernels(rng: &mut Rng) -> KindMask {
     let anchors: KindMask = (1 << K_VA) | (1 << K_EA) | (1 << K_FA);
-    match rng.below(6) {
+    match rng.below(7) {
         0 => 0,
         1 => anchors,
+        6 => (1 << K_EA) | (1 << K_FA),
         2 => (1 << K_WV) | (1 << K_WE),
         3 => anchors | (1 << K_WV),
         4 => (1 << K_TV) | (1 << K_WV) | (1 << K_TE),
